@@ -94,6 +94,15 @@ func runC14(c *core.Ctx) {
 		base := append([]string{"--no-color"}, opts...)
 		args1 := append(append(append([]string{}, base...), "-l", "log.yaml"), period...)
 		args1 = append(args1, "print")
+		if pb != nil && pe != nil && r.Intn(2) == 0 {
+			// the period spelled across the two levels of the command line: one bound before the command, the other after
+			if r.Intn(2) == 0 {
+				args1 = append(append(append([]string{}, base...), "-l", "log.yaml", period[0], period[1]), "print", period[2], period[3])
+			} else {
+				args1 = append(append(append([]string{}, base...), "-l", "log.yaml", period[2], period[3]), "print", period[0], period[1])
+			}
+			c.Count("print_with_a_period_split_across_levels", 1)
+		}
 		stray := false
 		if i%6 == 5 {
 			// words the command has no use for (a stray argument, a flag after one, anything after "--"): if the
